@@ -19,6 +19,7 @@ import contextlib
 import itertools
 import math
 import struct
+import time
 import warnings
 from fractions import Fraction
 
@@ -26,7 +27,8 @@ from lib import common as C
 
 ID = "C12"
 PROP_MODULES = ["GPVerif.Props.C12"]
-BUILD_TARGETS = ["GPVerif.Props.C12", "GPVerif.Gen.NoiseModels", "GPVerif.Model.Noise", "GPVerif.Model.Proto"]
+BUILD_TARGETS = ["GPVerif.Props.C12", "GPVerif.Gen.NoiseModels", "GPVerif.Model.Noise", "GPVerif.Model.NoiseExtra",
+                 "GPVerif.Model.Proto"]
 RULE = ("structured grid over likelihood kind {Gaussian, FixedNoise, FixedNoise+learned} x call-time noise "
         "{none, same batch, own batch, stored-size mismatch} x batch shapes of likelihood / stored noise / "
         "distribution, and multitask {rank 0..t} x {global, task} switches x {interleaved, not} x batch shapes, "
@@ -182,10 +184,79 @@ def py_step(line):
                 return "N"
             return "None" if k < len(mask) and mask[k] == "0" else str(k)
         return " ".join(f"{k}:{k}:{ent(k)}" for k in range(nl))
+    if op == "hetero":
+        n, lb = int(ts[0]), float(F(ts[1]))
+        if ts[2] == "1":
+            d = [float(F(x)) for x in ts[3:3 + n]]
+        else:
+            d = [_softplus_lb(lb, float(F(x))) for x in ts[3:3 + n]]
+        return " ".join(str(_bits(x)) for x in d) + " offdiag0"
+    if op == "heterotask":
+        t, k, lb = int(ts[0]), int(ts[1]), float(F(ts[2]))
+        idx = [int(x) for x in ts[3:3 + k]]
+        mu = [float(F(x)) for x in ts[3 + k:3 + k + t]]
+        return " ".join(str(_bits(_softplus_lb(lb, mu[a]))) for a in idx)
+    if op == "heteroprotocol":
+        return "save-mode eval call finally:restore-mode"
+    if op == "dir":
+        eps, c, N = float(F(ts[0])), int(ts[1]), int(ts[2])
+        ls = [int(x) for x in ts[3:3 + N]]
+        return " ".join([str(_bits(_dir_sigma2(eps, l, c))) for l in ls] + [str(_bits(_dir_target(eps, l, c))) for l in ls])
+    if op == "dirshaped":
+        eps, ncs, c, N = float(F(ts[0])), int(ts[2]), int(ts[4]), int(ts[5])
+        ls = [int(x) for x in ts[6:6 + N]]
+        p = 6 + N
+        learned = 0.0
+        has_learned = ts[p] == "1"
+        if has_learned:
+            learned = float(F(ts[p + 1]))
+            p += 2
+        else:
+            p += 1
+        n = int(ts[p])
+        if ts[p + 1] == "1":      # call-time labels: transformed like the training labels, with the likelihood's own eps
+            base = [_dir_sigma2(eps, int(x), c) for x in ts[p + 2:p + 2 + n]]
+        elif N == n:
+            base = [_dir_sigma2(eps, l, c) for l in ls]
+        else:
+            base = [0.0] * n
+        d = [b + learned for b in base] if has_learned else base
+        return f"rows={ncs} " + " ".join(str(_bits(x)) for x in d) + " offdiag0"
+    if op == "miss":
+        which, yt = ts[0], ts[1]
+        m, v, r = (F(x) for x in ts[2:5])
+        if yt == "nan":
+            return f"0 {_bits(0.0)}"
+        y = F(yt)
+        fy, fm, fv, fr = float(y), float(m), float(v), float(r)
+        if which == "elp":
+            q = ((y - m) * (y - m) + v) / r
+            val = -(0.5 * (((fy - fm) * (fy - fm) + fv) / fr + math.log(fr) + LOG2PI))
+        else:
+            q = ((y - m) * (y - m)) / (v + r)
+            val = -(0.5 * (((fy - fm) * (fy - fm)) / (fv + fr) + math.log(fv + fr) + LOG2PI))
+        return f"{C.rat_str(q)} {_bits(val)}"
     if op == "getters":
         # specification: every public property getter of the four files is an observation (writes nothing)
         return " ".join(f"{g}:" for g in source_getters())
     return "bad-request"
+
+
+def _softplus_lb(lb, x):
+    """GreaterThan(lb).transform = softplus(x) + lb"""
+    return math.log(1.0 + math.exp(x)) + lb
+
+
+def _dir_sigma2(eps, label, c):
+    """documented Dirichlet transformation: alpha = eps + [label = c];  sigma^2 = log(1/alpha + 1)"""
+    a = eps + 1.0 if label == c else eps
+    return math.log(1.0 / a + 1.0)
+
+
+def _dir_target(eps, label, c):
+    """y~ = log(alpha) - sigma^2 / 2"""
+    a = eps + 1.0 if label == c else eps
+    return math.log(a) - 0.5 * math.log(1.0 / a + 1.0)
 
 
 _C12_MODULES = ("noise_models", "gaussian_likelihood", "multitask_gaussian_likelihood", "likelihood_list")
@@ -234,7 +305,9 @@ class Oracle:
         py = [py_step(l) for l in lines]
         if not self.use_driver:
             return py
+        t0 = time.time()
         rep = C.run_driver("C12", lines)
+        self.ctx.notes["driver_seconds"] = round(self.ctx.notes.get("driver_seconds", 0.0) + time.time() - t0, 1)
         bad = 0
         for k, (l, a, b) in enumerate(zip(lines, rep, py)):
             if not _same_reply(a, b):
@@ -337,9 +410,9 @@ def _check_handed(torch, case, handed, cell):
     must be bit-for-bit what they were: `handed` = [(label, the tensor object handed in, an independent clone)]."""
     for label, t, ref in handed:
         if t.shape != ref.shape or not torch.equal(t, ref):
-            d = float((t - ref).abs().max()) if t.shape == ref.shape else float("nan")
+            d = float((t.detach() - ref).abs().max()) if t.shape == ref.shape else float("nan")
             case.fail(f"mutates-input:{cell}:{label.split('`')[1] if '`' in label else label}",
-                      f"the {label} handed to the likelihood was modified in place (max |after - before| = {d:.3e})")
+                      f"the caller's tensor ({label}) was modified in place (max |after - before| = {d:.3e})")
 
 
 # ------------------------------------------------------------------ single-output likelihoods
@@ -1114,11 +1187,13 @@ def run_hist(cfg):
         # the documented change defines the new expected parameters (for the fixed noise: the tensor that was handed in)
         shadow["P"] = _snap_mt(lik, cfg) if is_mt else _snap_single(lik, kind)
         if new is not None:
-            handed.append((f"`{target}` value handed to the {method}", new, new.clone()))
+            handed.append((f"`{target}` value passed to {'the setter' if method == 'setter' else method}", new, new.clone()))
             shadow["P"]["stored"] = new.clone()
         state["fp"] = _fingerprint(torch, lik)
         lab = f"{target}:{method}"
         call(f"{lab}|call on the same shape after changing `{target}` via {method} ({mode} mode)", n)
+        if cfg.get("short"):
+            continue
         call(f"{lab}|call on another event size ({n2}) after changing `{target}` via {method} ({mode} mode)", n2)
         call(f"{lab}|second call on the first shape after changing `{target}` via {method} ({mode} mode)", n)
     _check_handed(torch, case, handed, cellkey)
@@ -1174,7 +1249,408 @@ def run_hist(cfg):
     return case
 
 
-RUN = {"single": run_single, "mt": run_mt, "list": run_list, "hist": run_hist}
+# ------------------------------------------------------------------ HeteroskedasticNoise / Dirichlet / missing observations
+
+def _diag_from_bits(tokens):
+    """reply `bits… offdiag0` -> exact Fractions of the Float diagonal"""
+    if tokens[-1] != "offdiag0":
+        raise ValueError("the model's noise operator is not diagonal: " + tokens[-1])
+    return [C.frac(_unbits(t)) for t in tokens[:-1]]
+
+
+def _noise_models(torch, gpytorch):
+    class LinNoiseModel(gpytorch.models.GP):
+        """noise model with a known predictive mean  x @ w + b  (records the mode it is called in)"""
+
+        def __init__(self, w, b, tasks=None, fail=False):
+            super().__init__()
+            self.w, self.b, self.tasks, self.fail, self.seen = w, b, tasks, fail, []
+
+        def forward(self, x):
+            self.seen.append(self.training)
+            if self.fail:
+                raise ArithmeticError("noise model failed")
+            if self.tasks is None:
+                mean = x @ self.w + self.b
+                return gpytorch.distributions.MultivariateNormal(mean, 0.1 * torch.eye(mean.shape[-1], dtype=mean.dtype).expand(
+                    *mean.shape[:-1], mean.shape[-1], mean.shape[-1]))
+            mean = x @ self.w + self.b          # (..., n, t)
+            N = mean.shape[-2] * mean.shape[-1]
+            return gpytorch.distributions.MultitaskMultivariateNormal(mean, 0.1 * torch.eye(N, dtype=mean.dtype))
+
+    class ExactNoiseGP(gpytorch.models.ExactGP):
+        def __init__(self, tx, ty):
+            super().__init__(tx, ty, gpytorch.likelihoods.GaussianLikelihood())
+            self.mean_module = gpytorch.means.ConstantMean()
+            self.covar_module = gpytorch.kernels.ScaleKernel(gpytorch.kernels.RBFKernel())
+            self.seen = []
+
+        def forward(self, x):
+            self.seen.append(self.training)
+            return gpytorch.distributions.MultivariateNormal(self.mean_module(x), self.covar_module(x))
+    return LinNoiseModel, ExactNoiseGP
+
+
+def run_hetero(cfg):
+    """`_GaussianLikelihoodBase(noise_covar=HeteroskedasticNoise(noise_model))`: R = diag(constraint.transform(mean of the noise
+    model's eval-mode prediction at the inputs)); call-time noise used directly; the noise model's mode is restored."""
+    import torch
+    import gpytorch
+    from gpytorch.likelihoods.gaussian_likelihood import _GaussianLikelihoodBase
+    from gpytorch.likelihoods import HeteroskedasticNoise
+    case = Case(cfg)
+    gen = torch.Generator().manual_seed(cfg["seed"])
+    n, d, xb = cfg["n"], cfg["d"], tuple(cfg["xb"])
+    Lin, ExactNoiseGP = _noise_models(torch, gpytorch)
+    x = torch.randn(*xb, n, d, generator=gen, dtype=torch.float64)
+    var = cfg["model"] + (":calltime" if cfg["call"] else "")
+    with warnings.catch_warnings():
+        warnings.simplefilter("ignore")
+        if cfg["model"] == "tasks":      # multi-output noise model + noise_indices, at the noise-model level
+            t, idx = cfg["t"], cfg["idx"]
+            nm = Lin(torch.randn(d, t, generator=gen, dtype=torch.float64), torch.randn(t, generator=gen, dtype=torch.float64), tasks=t)
+            hn = HeteroskedasticNoise(nm, noise_indices=idx)
+            nm.train(cfg["nm_mode"] == "train")
+            try:
+                out = hn(x).to_dense().detach()
+            except Exception as e:
+                case.fail(f"raises:hetero:{var}", f"HeteroskedasticNoise(noise_indices={idx})(x) raised {type(e).__name__}: {str(e)[:160]}")
+                return case
+            if nm.training != (cfg["nm_mode"] == "train") or nm.seen[-1] is not False:
+                case.fail(f"hetero:mode-protocol", f"noise model called in {'train' if nm.seen[-1] else 'eval'} mode, left in "
+                          f"{'train' if nm.training else 'eval'} mode (was {cfg['nm_mode']})")
+            mu = (x @ nm.w + nm.b).detach()
+            lb = float(hn._noise_constraint.lower_bound)
+            case.l1 = [f"heterotask {t} {len(idx)} {C.rat_str(lb)} {' '.join(map(str, idx))} {rs(mu[i].tolist())}" for i in range(n)]
+
+            def after1(rep1):
+                k = len(idx)
+                if tuple(out.shape) != (n, k, k):
+                    case.fail(f"hetero:{var}", f"noise operator has shape {tuple(out.shape)}, expected ({n}, {k}, {k})")
+                    return
+                for i, r in enumerate(rep1):
+                    dg = [_unbits(tk) for tk in r.split()]
+                    for a in range(k):
+                        for b in range(k):
+                            e = dg[a] if a == b else 0.0
+                            if not abs(out[i, a, b].item() - e) <= 1e-12 * (1 + abs(e)):
+                                case.fail(f"hetero:{var}", f"point {i}, block entry [{a},{b}] = {out[i, a, b].item()!r}, "
+                                          f"transform(mean[{i}, {idx[a]}]) = {e!r}")
+            case.after1 = after1
+            return case
+        if cfg["model"] == "exactgp":
+            tx = torch.randn(6, d, generator=gen, dtype=torch.float64)
+            nm = ExactNoiseGP(tx, torch.randn(6, generator=gen, dtype=torch.float64)).double()
+        else:
+            nm = Lin(torch.randn(d, generator=gen, dtype=torch.float64), torch.randn((), generator=gen, dtype=torch.float64))
+        hn = HeteroskedasticNoise(nm)
+        lik = _GaussianLikelihoodBase(noise_covar=hn).double()
+        lik.train(cfg["mode"] == "train")
+        nm.train(cfg["nm_mode"] == "train")
+        # the specification's mu: the noise model's own eval-mode prediction at x (asked directly, mode put back)
+        nm.eval()
+        with gpytorch.settings.debug(False):
+            mu = nm(x).mean.detach().clone()
+        nm.train(cfg["nm_mode"] == "train")
+        nm.seen.clear()
+        lb = float(hn._noise_constraint.lower_bound)
+        call = _pos(torch, (*xb, n), gen) if cfg["call"] else None
+        kw = {} if call is None else {"noise": call}
+        Cm = _spd(torch, xb, n, gen)
+        mean = torch.randn(*xb, n, generator=gen, dtype=torch.float64)
+        y = mean + torch.randn(*xb, n, generator=gen, dtype=torch.float64)
+        fs = torch.randn(*xb, n, generator=gen, dtype=torch.float64)
+        dist = gpytorch.distributions.MultivariateNormal(mean, Cm)
+        handed = [("inputs `x`", x, x.clone()), ("distribution `covariance`", Cm, Cm.clone())]
+        if call is not None:
+            handed.append(("call-time `noise`", call, call.clone()))
+        obs = {}
+        for name, fn in (("marginal", lambda: lik(dist, x, **kw)), ("marginal_direct", lambda: lik.marginal(dist, x, **kw)),
+                         ("expected_log_prob", lambda: lik.expected_log_prob(y, dist, x, **kw)),
+                         ("log_marginal", lambda: lik.log_marginal(y, dist, x, **kw)),
+                         ("conditional", lambda: lik(fs, x, **kw)), ("marginal_again", lambda: lik(dist, x, **kw))):
+            try:
+                obs[name] = fn()
+            except Exception as e:
+                case.fail(f"raises:hetero:{var}:{name}", f"{name} raised {type(e).__name__}: {str(e)[:200]}")
+            if nm.training != (cfg["nm_mode"] == "train") or (nm.seen and nm.seen[-1] is not False):
+                case.fail("hetero:mode-protocol", f"after {name}: noise model was called in "
+                          f"{'train' if nm.seen and nm.seen[-1] else 'eval'} mode and left in {'train' if nm.training else 'eval'} mode "
+                          f"(it was in {cfg['nm_mode']} mode)")
+        if call is not None and nm.seen:
+            pass    # consulting the noise model although noise= is given is wasteful, not wrong
+        if cfg["model"] == "lin":        # the mode is restored on the exception path, too
+            nm.fail = True
+            try:
+                lik(dist, x)
+                case.fail("hetero:mode-protocol", "an exception of the noise model was swallowed")
+            except ArithmeticError:
+                pass
+            if nm.training != (cfg["nm_mode"] == "train"):
+                case.fail("hetero:mode-protocol", f"noise model left in {'train' if nm.training else 'eval'} mode after it raised "
+                                                  f"(it was in {cfg['nm_mode']} mode)")
+            nm.fail = False
+        _check_handed(torch, case, handed, "hetero:" + var)
+    idxs = all_idx(xb)
+    case.l1 = ["heteroprotocol"] + [
+        f"hetero {n} {C.rat_str(lb)} " + (("1 " + rs(call[oi].tolist())) if call is not None else "0") + " " + rs(mu[oi].tolist())
+        for oi in idxs]
+
+    def after1(rep1):
+        Rd = [_diag_from_bits(r.split()) for r in rep1[1:]]
+        lines2, todo = [], []
+        for entry in ("marginal", "marginal_direct", "marginal_again"):
+            if entry not in obs:
+                continue
+            cov = obs[entry].covariance_matrix.detach()
+            if tuple(cov.shape) != (*xb, n, n) or not torch.equal(obs[entry].mean.detach(), mean):
+                case.fail(f"marginal:hetero:{var}", f"{entry}: shape {tuple(cov.shape)} / mean changed")
+                continue
+            for q, oi in enumerate(idxs):
+                lines2.append(f"marg {C.mat_tokens(Cm[oi])} {_show(_diag(Rd[q]))}")
+                todo.append((entry, oi, cov[oi].tolist()))
+        if "conditional" in obs:
+            v_ = obs["conditional"].scale.detach() ** 2
+            for q, oi in enumerate(idxs):
+                for e in range(n):
+                    g, r = v_[oi][e].item(), float(Rd[q][e])
+                    if tuple(v_.shape) != (*xb, n) or not abs(g - r) <= 1e-12 * (1 + abs(r)):
+                        case.fail(f"conditional:hetero:{var}", f"likelihood(f, x) at {oi}: variance[{e}] = {g!r}, noise operator {r!r}")
+        for name, short in (("expected_log_prob", "elp"), ("log_marginal", "lm")):
+            if name not in obs:
+                continue
+            val = obs[name].detach()
+            if tuple(val.shape) != (*xb, n):
+                case.fail(f"{short}:hetero:{var}", f"{name} has shape {tuple(val.shape)}")
+                continue
+            for q, oi in enumerate(idxs):
+                for e in range(n):
+                    exp, mag = _closed(short, y[oi][e].item(), mean[oi][e].item(), Cm[oi][e, e].item(), Rd[q][e])
+                    if not abs(val[oi][e].item() - exp) <= 1e-11 * (1 + mag):
+                        case.fail(f"{short}:hetero:{var}", f"{name}[{list(oi)},{e}] = {val[oi][e].item()!r}, closed form {exp!r} "
+                                  f"(r = transform(mu) = {float(Rd[q][e])!r})")
+        case.l2 = lines2
+
+        def after2(rep2):
+            for (entry, oi, got), rep in zip(todo, rep2):
+                exact, _ = C.parse_mat(rep.split())
+                scale = max(abs(float(v)) for row in exact for v in row)
+                _cmp_matrix(case, f"marginal:hetero:{var}", f"heteroskedastic {entry}(dist, x{', noise=v' if kw else ''}).covariance_matrix, "
+                            f"batch element {list(oi)} vs C + diag(transform(noise_model(x).mean))", got, exact, scale)
+        case.after2 = after2
+    case.after1 = after1
+    return case
+
+
+def run_dir(cfg):
+    """DirichletClassificationLikelihood: stored noise / transformed targets = the documented transformation of the labels
+    (class c = batch element c), R_c = diag(sigma~^2_c) [+ s_c I]; call-time `targets=` transformed with the likelihood's own
+    alpha_epsilon and number of classes."""
+    import inspect
+    import torch
+    import gpytorch
+    case = Case(cfg)
+    gen = torch.Generator().manual_seed(cfg["seed"])
+    N, nc, n = cfg["N"], cfg["nc"], cfg["n"]
+    labels = cfg["labels"]
+    eps = cfg["eps"]
+    D = gpytorch.likelihoods.DirichletClassificationLikelihood
+    eps_default = inspect.signature(D._prepare_targets).parameters["alpha_epsilon"].default
+    tr = torch.tensor(labels, dtype=torch.long)
+    with warnings.catch_warnings():
+        warnings.simplefilter("ignore")
+        kwargs = {} if eps is None else {"alpha_epsilon": eps}
+        try:
+            lik = D(tr, learn_additional_noise=cfg["learned"], dtype=torch.float64, **kwargs).double()
+        except Exception as e:
+            case.fail("raises:dirichlet:constructor", f"constructor raised {type(e).__name__}: {str(e)[:200]}")
+            return case
+        e_self = eps_default if eps is None else eps
+        sigma2 = None
+        if cfg["learned"]:
+            lik.second_noise = _pos(torch, (nc, 1), gen)
+            sigma2 = lik.second_noise_covar.noise.detach().clone()
+        call = cfg.get("call")
+        kw = {} if call is None else {"targets": torch.tensor(call, dtype=torch.long)}
+        sub = "stored" if call is None else "calltime-targets"
+        if call is not None:
+            if max(call) + 1 != nc:
+                sub += ":num-classes"
+            elif eps is not None and eps != eps_default:
+                sub += ":alpha-epsilon"
+        if call is None and n != N:
+            sub += "-sizemismatch"
+        Cm = _spd(torch, (nc,), n, gen)
+        mean = torch.randn(nc, n, generator=gen, dtype=torch.float64)
+        dist = gpytorch.distributions.MultivariateNormal(mean, Cm)
+        stored = lik.noise_covar.noise.detach().clone()
+        tt = lik.transformed_targets.detach().clone()
+        obs = {}
+        fns = [("marginal", lambda: lik(dist, **kw))]
+        if call is None and n == N:
+            fns += [("expected_log_prob", lambda: lik.expected_log_prob(tt, dist)), ("log_marginal", lambda: lik.log_marginal(tt, dist))]
+        for name, fn in fns:
+            try:
+                obs[name] = fn()
+            except Exception as e:
+                case.fail(f"raises:dirichlet:{sub}", f"{name} raised {type(e).__name__}: {str(e)[:200]}")
+        if not torch.equal(lik.noise_covar.noise.detach(), stored) or not torch.equal(tr, torch.tensor(labels)):
+            case.fail(f"mutates-input:dirichlet:{sub}", "a call changed the stored noise / the labels")
+    if lik.num_classes != nc or tuple(stored.shape) != (nc, N) or tuple(tt.shape) != (nc, N):
+        case.fail("dirichlet:layout", f"num_classes = {lik.num_classes} (labels have {nc}), stored noise {tuple(stored.shape)}, "
+                                      f"transformed targets {tuple(tt.shape)}; expected ({nc}, {N})")
+        return case
+    ls = " ".join(map(str, labels))
+    case.l1 = [f"dir {C.rat_str(e_self)} {c} {N} {ls}" for c in range(nc)]
+    for c in range(nc):
+        le = f"1 {C.rat_str(sigma2[c, 0].item())}" if sigma2 is not None else "0"
+        cl = "0" if call is None else "1 " + " ".join(map(str, call))
+        nci = nc if call is None else max(call) + 1
+        case.l1.append(f"dirshaped {C.rat_str(e_self)} {C.rat_str(eps_default)} {nc} {nci} {c} {N} {ls} {le} {n} {cl}")
+    case.nontrivial = not (call is None and n != N and not cfg["learned"])
+
+    def after1(rep1):
+        for c in range(nc):
+            toks = [_unbits(t) for t in rep1[c].split()]
+            for i in range(N):
+                for what, got, e in (("stored-noise", stored[c, i].item(), toks[i]), ("transformed-targets", tt[c, i].item(), toks[N + i])):
+                    if not abs(got - e) <= 1e-13 * (1 + abs(e)):
+                        case.fail(f"dirichlet:{what}", f"{what}[class {c}, point {i}] = {got!r}; documented transformation of label "
+                                  f"{labels[i]} with alpha_epsilon = {e_self}: {e!r}")
+        Rd = []
+        for c in range(nc):
+            toks = rep1[nc + c].split()
+            if toks[0] != f"rows={nc}":
+                raise ValueError("model: call-time noise has " + toks[0])
+            Rd.append(_diag_from_bits(toks[1:]))
+        lines2, todo = [], []
+        if "marginal" in obs:
+            cov = obs["marginal"].covariance_matrix.detach()
+            if tuple(cov.shape) != (nc, n, n):
+                case.fail(f"dirichlet:{sub}", f"likelihood(dist{', targets=t' if kw else ''}).covariance_matrix has shape "
+                                              f"{tuple(cov.shape)}, expected ({nc}, {n}, {n}) (one batch element per class)")
+            else:
+                for c in range(nc):
+                    lines2.append(f"marg {C.mat_tokens(Cm[c])} {_show(_diag(Rd[c]))}")
+                    todo.append((c, cov[c].tolist()))
+        for name, short in (("expected_log_prob", "elp"), ("log_marginal", "lm")):
+            if name in obs:
+                val = obs[name].detach()
+                for c in range(nc):
+                    for e in range(n):
+                        exp, mag = _closed(short, tt[c, e].item(), mean[c, e].item(), Cm[c][e, e].item(), Rd[c][e])
+                        if tuple(val.shape) != (nc, n) or not abs(val[c, e].item() - exp) <= 1e-11 * (1 + mag):
+                            case.fail(f"{short}:dirichlet", f"{name}[class {c}, {e}] = {val[c, e].item()!r}, closed form {exp!r}")
+        case.l2 = lines2
+
+        def after2(rep2):
+            for (c, got), rep in zip(todo, rep2):
+                exact, _ = C.parse_mat(rep.split())
+                scale = max(abs(float(v)) for row in exact for v in row)
+                _cmp_matrix(case, f"dirichlet:{sub}", f"Dirichlet likelihood(dist{', targets=' + str(call) if kw else ''}).covariance_matrix, "
+                            f"class {c}, vs C + diag(log(1/alpha + 1)){' + s_c I' if cfg['learned'] else ''} with alpha = "
+                            f"{e_self} + [label = {c}]", got, exact, scale)
+        case.after2 = after2
+    case.after1 = after1
+    return case
+
+
+def run_miss(cfg):
+    """GaussianLikelihoodWithMissingObs: marginal = C + sigma^2 I (or the call-time noise); expected_log_prob / log_marginal are
+    the GaussianLikelihood terms where y is observed and exactly 0 where y is NaN."""
+    import torch
+    import gpytorch
+    case = Case(cfg)
+    gen = torch.Generator().manual_seed(cfg["seed"])
+    n, lb, db = cfg["n"], tuple(cfg["lb"]), tuple(cfg["db"])
+    with warnings.catch_warnings():
+        warnings.simplefilter("ignore")
+        lik = gpytorch.likelihoods.GaussianLikelihoodWithMissingObs(batch_shape=torch.Size(lb)).double()
+        lik.noise = _pos(torch, (*lb, 1), gen)
+        P = {"sigma2": lik.noise.detach().clone(), "stored": None}
+        P["call"] = _pos(torch, (*db, n), gen) if cfg["call"] else None
+        kw = {} if P["call"] is None else {"noise": P["call"]}
+        Cm = _spd(torch, db, n, gen)
+        mean = torch.randn(*db, n, generator=gen, dtype=torch.float64)
+        y = mean + torch.randn(*db, n, generator=gen, dtype=torch.float64)
+        miss = torch.rand(*db, n, generator=gen) < {"none": 0.0, "some": 0.4, "all": 1.1}[cfg["pattern"]]
+        ynan = y.masked_fill(miss, float("nan"))
+        yref = ynan.clone()
+        dist = gpytorch.distributions.MultivariateNormal(mean, Cm)
+        obs = {}
+        for name, fn in (("marginal", lambda: lik(dist, **kw)), ("expected_log_prob", lambda: lik.expected_log_prob(ynan, dist, **kw)),
+                         ("log_marginal", lambda: lik.log_marginal(ynan, dist, **kw))):
+            try:
+                obs[name] = fn()
+            except Exception as e:
+                case.fail(f"raises:missingobs:{name}", f"{name} raised {type(e).__name__}: {str(e)[:200]}")
+        if not torch.equal(torch.isnan(ynan), torch.isnan(yref)) or not torch.equal(ynan[~miss], yref[~miss]):
+            case.fail("mutates-input:missingobs:targets", "the targets (with their NaN entries) were modified in place")
+    gcfg = dict(cfg, kind="gauss")
+    ob = single_out_batch(gcfg, P)
+    idxs = all_idx(ob)
+    case.l1 = [single_noise_line(gcfg, P, oi) for oi in idxs]
+    var = cfg["pattern"] + (":calltime" if cfg["call"] else "")
+
+    def after1(rep1):
+        Rs = [C.parse_mat(r.split())[0] for r in rep1]
+        lines2, todo = [], []
+        if "marginal" in obs:
+            cov = obs["marginal"].covariance_matrix.detach()
+            full = bshape(tuple(cov.shape[:-2]), ob)
+            for oi in all_idx(full):
+                lines2.append(f"marg {C.mat_tokens(Cm[bidx(db, oi)])} {_show(Rs[idxs.index(bidx(ob, oi))])}")
+                todo.append(("marg", oi, cov[bidx(tuple(cov.shape[:-2]), oi)].tolist()))
+        for name, short in (("expected_log_prob", "elp"), ("log_marginal", "lm")):
+            if name not in obs:
+                continue
+            val = obs[name].detach()
+            full = bshape(tuple(val.shape[:-1]), ob)
+            if val.shape[-1] != n:
+                case.fail(f"{short}:missingobs:{var}", f"{name} has shape {tuple(val.shape)}")
+                continue
+            k = 0
+            for oi in all_idx(full):
+                R = Rs[idxs.index(bidx(ob, oi))]
+                di = bidx(db, oi)
+                vi = val[bidx(tuple(val.shape[:-1]), oi)]
+                for e in range(n):
+                    got = vi[e].item()
+                    if bool(miss[di][e]):
+                        if not got == 0.0:        # NaN fails this comparison, too
+                            case.fail(f"{short}:missingobs:{var}", f"{name}[{list(oi)},{e}] = {got!r} for a missing observation (must be 0)")
+                    else:
+                        exp, mag = _closed(short, y[di][e].item(), mean[di][e].item(), Cm[di][e, e].item(), R[e][e])
+                        if not abs(got - exp) <= 1e-11 * (1 + mag):
+                            case.fail(f"{short}:missingobs:{var}", f"{name}[{list(oi)},{e}] = {got!r}, closed form of the observed "
+                                                                   f"entry {exp!r}")
+                    if k < 3:
+                        k += 1
+                        yt = "nan" if bool(miss[di][e]) else C.rat_str(y[di][e].item())
+                        lines2.append(f"miss {short} {yt} {C.rat_str(mean[di][e].item())} {C.rat_str(Cm[di][e, e].item())} {C.rat_str(R[e][e])}")
+                        todo.append((short, (oi, e), got))
+        case.l2 = lines2
+
+        def after2(rep2):
+            for (what, where, got), rep in zip(todo, rep2):
+                if what == "marg":
+                    exact, _ = C.parse_mat(rep.split())
+                    scale = max(abs(float(v)) for row in exact for v in row)
+                    _cmp_matrix(case, f"marginal:missingobs:{var}", f"GaussianLikelihoodWithMissingObs(dist).covariance_matrix, batch "
+                                f"element {list(where)}", got, exact, scale)
+                else:
+                    toks = rep.split()
+                    lean = _unbits(toks[-1])
+                    if not abs(got - lean) <= 1e-11 * (1 + abs(lean) + abs(float(Fraction(toks[0])))):
+                        case.fail(f"{what}:missingobs:{var}", f"{what} at {where}: impl {got!r}, Lean Float value of the generated "
+                                                              f"expression {lean!r}")
+        case.after2 = after2
+    case.after1 = after1
+    return case
+
+
+RUN = {"single": run_single, "mt": run_mt, "list": run_list, "hist": run_hist, "hetero": run_hetero, "dir": run_dir,
+       "miss": run_miss}
 
 
 # ------------------------------------------------------------------ generator
@@ -1331,6 +1807,49 @@ def gen_cfgs(ctx):
                             c["ops"].append(["read", "*", 1])
                         c["ops"].append([t2, rng.choice(tg[t2])])
                         cfgs.append(c)
+    # --- HeteroskedasticNoise (through _GaussianLikelihoodBase and at the noise-model level), Dirichlet, missing observations
+    for _ in range(1 if quick else 10):
+        for model in ("lin", "exactgp"):
+            for callv in (False, True):
+                for mode, nm_mode in (("train", "train"), ("eval", "train"), ("train", "eval"), ("eval", "eval")):
+                    if quick and model == "exactgp" and mode != nm_mode:
+                        continue
+                    cfgs.append({"fam": "hetero", "model": model, "n": rng.randint(1, 5), "d": rng.randint(1, 3),
+                                 "xb": rng.choice([[], [], [2]]) if model == "lin" else [], "call": callv, "mode": mode,
+                                 "nm_mode": nm_mode, "seed": seed()})
+        for _k in range(3):
+            t = rng.randint(2, 4)
+            k = rng.randint(1, t)
+            cfgs.append({"fam": "hetero", "model": "tasks", "n": rng.randint(1, 4), "d": rng.randint(1, 3), "xb": [], "t": t,
+                         "idx": [rng.randrange(t) for _i in range(k)] if rng.random() < 0.5 else sorted(rng.sample(range(t), k)),
+                         "call": False, "mode": "train", "nm_mode": rng.choice(["train", "eval"]), "seed": seed()})
+    for _ in range(1 if quick else 10):
+        for learned in (False, True):
+            for epsv in ("default", "own"):
+                for callv in ("none", "none-other-size", "targets", "targets-no-top", "targets-one-class"):
+                    nc = rng.randint(2, 4)
+                    N = rng.randint(nc, nc + 4)
+                    labels = list(range(nc)) + [rng.randrange(nc) for _i in range(N - nc)]
+                    rng.shuffle(labels)
+                    n = N if callv == "none" else rng.choice([x for x in range(1, 7) if x != N] + ([N] if callv != "none-other-size" else []))
+                    call = None
+                    if callv == "targets":
+                        call = [rng.randrange(nc) for _i in range(n)]
+                        call[rng.randrange(n)] = nc - 1
+                    elif callv == "targets-no-top":
+                        call = [rng.randrange(nc - 1) for _i in range(n)]
+                    elif callv == "targets-one-class":
+                        call = [0] * n
+                    cfgs.append({"fam": "dir", "N": N, "nc": nc, "n": n, "labels": labels, "learned": learned,
+                                 "eps": None if epsv == "default" else rng.choice([0.1, 0.05, 0.3, round(rng.uniform(0.02, 0.6), 3)]),
+                                 "call": call, "seed": seed()})
+    for _ in range(1 if quick else 10):
+        for pattern in ("none", "some", "some", "all"):
+            for callv in (False, True):
+                lb = rng.choice([[], [2], [1]])
+                db = rng.choice([[], [2], [3, 2]])
+                cfgs.append({"fam": "miss", "n": rng.randint(1, 6), "lb": lb, "db": db, "pattern": pattern, "call": callv,
+                             "seed": seed()})
     # --- property READS as history operations: build -> (use) -> read a public attribute 1..3 times -> use -> change ->
     #     read -> use, for EVERY public property getter / parameter of every likelihood kind and of its noise models
     #     (`noise`, `second_noise`, `task_noises`, `task_noise_covar`, `raw_*`, …; `*` = all of them), train and eval
@@ -1356,6 +1875,7 @@ def gen_cfgs(ctx):
                 tg = hist_targets(c)
                 t2 = rng.choice(sorted(tg))
                 c["ops"] = [["read", name, rng.randint(1, 3)], [t2, rng.choice(tg[t2])], ["read", name, 1]]
+                c["short"] = True                   # one use after the change (the change histories above make three)
                 if rng.random() < 0.3:
                     c["read_first"] = True          # the very first operation on the fresh object is the read
                 if rng.random() < 0.5:
@@ -1397,7 +1917,8 @@ def gen_cfgs(ctx):
     return cfgs
 
 
-def run_cases(ctx, cfgs, oracle):
+def run_cases(ctx, cfgs, oracle, pre_lines=()):
+    """`pre_lines`: extra request lines sent with stage 1 (one driver start less); their replies go to ctx.notes."""
     import torch
     torch.set_num_threads(2)
     cases = []
@@ -1407,9 +1928,11 @@ def run_cases(ctx, cfgs, oracle):
         except Exception as e:  # harness-side failure: not a verdict about the implementation
             ctx.broke("correspondence", f"harness:{cfg['fam']}", f"{type(e).__name__}: {e} on {cfg}")
     # stage 1
-    lines = [l for c in cases for l in c.l1]
+    lines = list(pre_lines) + [l for c in cases for l in c.l1]
     rep = oracle(lines)
-    p = 0
+    for l, r in zip(pre_lines, rep):
+        ctx.notes["reply:" + l] = r.split()
+    p = len(pre_lines)
     for c in cases:
         k = len(c.l1)
         if c.after1 is not None and not (c.fails and not c.l1):
@@ -1442,6 +1965,15 @@ def _cell(cfg):
         return f"{cfg['kind']}:{variant_of(cfg)}"
     if cfg["fam"] == "mt":
         return "multitask:" + variant_of(cfg)
+    if cfg["fam"] == "hetero":
+        return f"hetero:{cfg['model']}:{'calltime' if cfg['call'] else 'model'}:{cfg['mode']}/{cfg['nm_mode']}"
+    if cfg["fam"] == "dir":
+        c = cfg.get("call")
+        return (f"dirichlet:{'learned' if cfg['learned'] else 'fixed'}:{'default-eps' if cfg['eps'] is None else 'eps'}:"
+                f"{'stored' if c is None else ('targets-without-top-class' if max(c) + 1 != cfg['nc'] else 'targets')}"
+                f"{'' if cfg['n'] == cfg['N'] else ':other-size'}")
+    if cfg["fam"] == "miss":
+        return f"missingobs:{cfg['pattern']}:{'calltime' if cfg['call'] else 'stored'}"
     if cfg["fam"] == "hist":
         return f"history:{cfg['kind']}:{cfg['mode']}:{cfg['ops'][0][0]}:{cfg['ops'][0][1]}"
     cont = "plain" if cfg["nnoise"] < 0 else cfg.get("container", "list")
@@ -1456,8 +1988,7 @@ def correspondence(ctx, use_driver=True):
     oracle = Oracle(ctx, use_driver)
     # the regenerated table of property getters (translator: ast scan) vs the properties found by introspection of the
     # imported package, all of them observations (no writes)
-    ctx.notes["property_getters"] = oracle(["getters"])[0].split()
-    cases = run_cases(ctx, cfgs, oracle)
+    cases = run_cases(ctx, cfgs, oracle, pre_lines=["getters"])
     cells, sizes = {}, {}
     for c in cases:
         cfg = c.cfg
